@@ -46,8 +46,7 @@ EncAction(a) ==
     [] a.T = "ActionSetqueue"  -> Std(21, a.QueueId)
     [] a.T = "ActionGroup"     -> Std(22, a.GroupId)
     [] a.T = "ActionDecNwTtl"  -> Std(24, Zeros(4))
-    [] a.T = "ActionPushVlan"  -> Std(17, a.EtherType \o Zeros(2))
-    [] a.T = "ActionPushMpls"  -> Std(19, a.EtherType \o Zeros(2))
+    [] a.T = "ActionPush"      -> Std(U16(a.Type), a.EtherType \o Zeros(2))            \* 17 push-vlan, 19 push-mpls, 26 push-pbb
     [] a.T = "ActionPopVlan"   -> Std(18, Zeros(4))
     [] a.T = "ActionPopMpls"   -> Std(20, a.EtherType \o Zeros(2))
     [] a.T = "ActionMplsTtl"   -> Std(15, a.MplsTtl \o Zeros(3))
@@ -55,7 +54,7 @@ EncAction(a) ==
     [] a.T = "ActionHeader"    -> Std(U16(a.Type), Zeros(4))            \* copy-ttl-out/in, dec-mpls-ttl, pop-pbb
     [] a.T = "ActionSetField"  -> WithLen(Pad8(<<0, 25, 0, 0>> \o EncOxm(a.Field)))
     [] a.T = "NXActionResubmit"      -> Nx(1, a.InPort \o Zeros(4))                     \* plain resubmit carries no table (byte taken from the implementation: zero)
-    [] a.T = "NXActionResubmitTable" -> Nx(IF a.WithCT THEN 44 ELSE 14, a.InPort \o a.TableID \o Zeros(3))
+    [] a.T = "NXActionResubmitTable" -> Nx(U16(a.Subtype), a.InPort \o a.TableID \o Zeros(3))   \* 14 resubmit_table, 44 ct_resubmit
     [] a.T = "NXActionRegMove"       -> Nx(6, a.Nbits \o a.SrcOfs \o a.DstOfs \o HeaderWord(a.SrcField) \o HeaderWord(a.DstField))
     [] a.T = "NXActionRegLoad"       -> Nx(7, a.OfsNbits \o HeaderWord(a.DstReg) \o a.Value)
     [] a.T = "NXActionNote"          -> Nx(8, a.Note)
@@ -77,9 +76,7 @@ EncAction(a) ==
 EncInstr(i) ==
   CASE i.T = "InstrGotoTable"     -> Std(1, i.TableId \o Zeros(3))
     [] i.T = "InstrWriteMetadata" -> Std(2, Zeros(4) \o i.Metadata \o i.MetadataMask)
-    [] i.T = "InstrWriteActions"  -> Std(3, Zeros(4) \o EncActions(i.Actions))
-    [] i.T = "InstrApplyActions"  -> Std(4, Zeros(4) \o EncActions(i.Actions))
-    [] i.T = "InstrClearActions"  -> Std(5, Zeros(4))
+    [] i.T = "InstrActions"       -> Std(U16(i.Type), Zeros(4) \o EncActions(i.Actions))   \* 3 write, 4 apply, 5 clear
     [] i.T = "InstrMeter"         -> Std(6, i.MeterId)
 EncInstrs(is) == Flat([k \in DOMAIN is |-> EncInstr(is[k])])
 EncBucket(b) == LET body == b.Weight \o b.WatchPort \o b.WatchGroup \o Zeros(4) \o EncActions(b.Actions)
@@ -95,55 +92,54 @@ EncPort(p) == p.PortNo \o Zeros(4) \o p.HWAddr \o Zeros(2) \o p.Name \o p.Config
               \o p.Supported \o p.Peer \o p.CurrSpeed \o p.MaxSpeed
 RECURSIVE EncMsg(_)
 EncVendorData(d) ==
-  CASE d.T = "none"          -> <<>>
-    [] d.T = "ControllerID"  -> Zeros(6) \o d.ID
+  IF d.T = "nil" THEN <<>> ELSE
+  CASE d.T = "ControllerID"  -> Zeros(6) \o d.ID
     [] d.T = "TLVTableMod"   -> d.Command \o Zeros(6) \o EncList(EncTlvMap, d.TlvMaps)
     [] d.T = "TLVTableReply" -> d.MaxSpace \o d.MaxFields \o Zeros(10) \o EncList(EncTlvMap, d.TlvMaps)
     [] d.T = "BundleControl" -> d.BundleID \o d.Type \o d.Flags
     [] d.T = "BundleAdd"     -> d.BundleID \o Zeros(2) \o d.Flags \o EncMsg(d.Message) \o EncList(EncBundleProp, d.Properties)
     [] d.T = "raw"           -> d.Data
 EncMpBody(b) ==
-  CASE b.T = "none" -> <<>>
-    [] b.T \in {"FlowStatsRequest", "AggregateStatsRequest"} ->
+  IF b.T = "nil" THEN <<>> ELSE
+  CASE b.T \in {"FlowStatsRequest", "AggregateStatsRequest"} ->
          b.TableId \o Zeros(3) \o b.OutPort \o b.OutGroup \o Zeros(4) \o b.Cookie \o b.CookieMask \o EncMatch(b.Match)
     [] b.T = "PortStatsRequest"  -> b.PortNo \o Zeros(4)
     [] b.T = "QueueStatsRequest" -> b.PortNo \o b.QueueId
     [] b.T = "raw" -> b.Data
 EncMsg(m) ==
   CASE m.T = "Header"       -> Msg(m.Type[1], m.Xid, <<>>)
-    [] m.T = "Hello"        -> Msg(0, m.Xid, EncList(EncHelloElem, m.Elements))
-    [] m.T = "ErrorMsg"     -> Msg(1, m.Xid, m.Type \o m.Code \o m.Data)
-    [] m.T = "VendorError"  -> Msg(1, m.Xid, <<255, 255>> \o m.Code \o m.ExperimenterID \o m.Data)
-    [] m.T = "SetConfig"    -> Msg(9, m.Xid, m.Flags \o m.MissSendLen)
-    [] m.T = "GetConfigReply" -> Msg(8, m.Xid, m.Flags \o m.MissSendLen)
-    [] m.T = "FlowMod"      -> Msg(14, m.Xid, m.Cookie \o m.CookieMask \o m.TableId \o m.Command \o m.IdleTimeout \o m.HardTimeout
+    [] m.T = "Hello"        -> Msg(0, m.Header.Xid, EncList(EncHelloElem, m.Elements))
+    [] m.T = "ErrorMsg"     -> Msg(1, m.Header.Xid, m.Type \o m.Code \o m.Data)
+    [] m.T = "VendorError"  -> Msg(1, m.Header.Xid, <<255, 255>> \o m.Code \o m.ExperimenterID \o m.Data)
+    [] m.T = "SwitchConfig" -> Msg(m.Header.Type[1], m.Header.Xid, m.Flags \o m.MissSendLen)       \* 9 set-config, 8 get-config reply
+    [] m.T = "FlowMod"      -> Msg(14, m.Header.Xid, m.Cookie \o m.CookieMask \o m.TableId \o m.Command \o m.IdleTimeout \o m.HardTimeout
                                    \o m.Priority \o m.BufferId \o m.OutPort \o m.OutGroup \o m.Flags \o Zeros(2)
                                    \o EncMatch(m.Match) \o EncInstrs(m.Instructions))
-    [] m.T = "GroupMod"     -> Msg(15, m.Xid, m.Command \o m.Type \o <<0>> \o m.GroupId \o EncList(EncBucket, m.Buckets))
+    [] m.T = "GroupMod"     -> Msg(15, m.Header.Xid, m.Command \o m.Type \o <<0>> \o m.GroupId \o EncList(EncBucket, m.Buckets))
     [] m.T = "PacketOut"    -> LET acts == EncActions(m.Actions) IN
-                               Msg(13, m.Xid, m.BufferId \o m.InPort \o BE16(Len(acts)) \o Zeros(6) \o acts \o m.Data)
-    [] m.T = "PortMod"      -> Msg(16, m.Xid, m.PortNo \o Zeros(4) \o m.HWAddr \o Zeros(2) \o m.Config \o m.Mask \o m.Advertise \o Zeros(4))
-    [] m.T = "MultipartRequest" -> Msg(18, m.Xid, m.Type \o m.Flags \o Zeros(4) \o EncMpBody(m.Body))
-    [] m.T = "VendorHeader" -> Msg(4, m.Xid, m.Vendor \o m.ExperimenterType \o EncVendorData(m.VendorData))
-    [] m.T = "PortStatus"   -> Msg(12, m.Xid, m.Reason \o Zeros(7) \o EncPort(m.Desc))
-    [] m.T = "FlowRemoved"  -> Msg(11, m.Xid, m.Cookie \o m.Priority \o m.Reason \o m.TableId \o m.DurationSec \o m.DurationNSec
+                               Msg(13, m.Header.Xid, m.BufferId \o m.InPort \o BE16(Len(acts)) \o Zeros(6) \o acts \o m.Data)
+    [] m.T = "PortMod"      -> Msg(16, m.Header.Xid, m.PortNo \o Zeros(4) \o m.HWAddr \o Zeros(2) \o m.Config \o m.Mask \o m.Advertise \o Zeros(4))
+    [] m.T = "MultipartRequest" -> Msg(18, m.Header.Xid, m.Type \o m.Flags \o Zeros(4) \o EncMpBody(m.Body))
+    [] m.T = "VendorHeader" -> Msg(4, m.Header.Xid, m.Vendor \o m.ExperimenterType \o EncVendorData(m.VendorData))
+    [] m.T = "PortStatus"   -> Msg(12, m.Header.Xid, m.Reason \o Zeros(7) \o EncPort(m.Desc))
+    [] m.T = "FlowRemoved"  -> Msg(11, m.Header.Xid, m.Cookie \o m.Priority \o m.Reason \o m.TableId \o m.DurationSec \o m.DurationNSec
                                    \o m.IdleTimeout \o m.HardTimeout \o m.PacketCount \o m.ByteCount \o EncMatch(m.Match))
-    [] m.T = "PacketIn"     -> Msg(10, m.Xid, m.BufferId \o m.TotalLen \o m.Reason \o m.TableId \o m.Cookie \o EncMatch(m.Match)
+    [] m.T = "PacketIn"     -> Msg(10, m.Header.Xid, m.BufferId \o m.TotalLen \o m.Reason \o m.TableId \o m.Cookie \o EncMatch(m.Match)
                                    \o Zeros(2) \o m.Data)
-    [] m.T = "SwitchFeatures" -> Msg(6, m.Xid, m.DPID \o m.Buffers \o m.NumTables \o m.AuxilaryId \o Zeros(2) \o m.Capabilities \o m.Actions)
+    [] m.T = "SwitchFeatures" -> Msg(6, m.Header.Xid, m.DPID \o m.Buffers \o m.NumTables \o m.AuxilaryId \o Zeros(2) \o m.Capabilities \o m.Actions)
 TypeCode(m) ==
-  CASE m.T = "Header" -> m.Type[1] [] m.T = "Hello" -> 0 [] m.T \in {"ErrorMsg", "VendorError"} -> 1 [] m.T = "SetConfig" -> 9
-    [] m.T = "GetConfigReply" -> 8 [] m.T = "FlowMod" -> 14 [] m.T = "GroupMod" -> 15 [] m.T = "PacketOut" -> 13 [] m.T = "PortMod" -> 16
+  CASE m.T = "Header" -> m.Type[1] [] m.T = "Hello" -> 0 [] m.T \in {"ErrorMsg", "VendorError"} -> 1 [] m.T = "SwitchConfig" -> m.Header.Type[1]
+    [] m.T = "FlowMod" -> 14 [] m.T = "GroupMod" -> 15 [] m.T = "PacketOut" -> 13 [] m.T = "PortMod" -> 16
     [] m.T = "MultipartRequest" -> 18 [] m.T = "VendorHeader" -> 4 [] m.T = "PortStatus" -> 12 [] m.T = "FlowRemoved" -> 11
     [] m.T = "PacketIn" -> 10 [] m.T = "SwitchFeatures" -> 6
-MsgKinds == {"Header", "Hello", "ErrorMsg", "VendorError", "SetConfig", "GetConfigReply", "FlowMod", "GroupMod", "PacketOut", "PortMod",
+MsgKinds == {"Header", "Hello", "ErrorMsg", "VendorError", "SwitchConfig", "FlowMod", "GroupMod", "PacketOut", "PortMod",
              "MultipartRequest", "VendorHeader", "PortStatus", "FlowRemoved", "PacketIn", "SwitchFeatures"}
-ActionKinds == {"ActionOutput", "ActionSetqueue", "ActionGroup", "ActionDecNwTtl", "ActionPushVlan", "ActionPushMpls", "ActionPopVlan",
+ActionKinds == {"ActionOutput", "ActionSetqueue", "ActionGroup", "ActionDecNwTtl", "ActionPush", "ActionPopVlan",
                 "ActionPopMpls", "ActionMplsTtl", "ActionNwTtl", "ActionHeader", "ActionSetField", "NXActionResubmit",
                 "NXActionResubmitTable", "NXActionRegMove", "NXActionRegLoad", "NXActionNote", "NXActionOutputReg", "NXActionLearn",
                 "NXActionDecTTL", "NXActionController", "NXActionDecTTLCntIDs", "NXActionRegLoad2", "NXActionConjunction",
                 "NXActionConnTrack", "NXActionCTNAT", "NXActionCTClear"}
-InstrKinds == {"InstrGotoTable", "InstrWriteMetadata", "InstrWriteActions", "InstrApplyActions", "InstrClearActions", "InstrMeter"}
+InstrKinds == {"InstrGotoTable", "InstrWriteMetadata", "InstrActions", "InstrMeter"}
 \* encoding of any tree
 Enc(t) == CASE t.T \in MsgKinds -> EncMsg(t) [] t.T \in ActionKinds -> EncAction(t) [] t.T \in InstrKinds -> EncInstr(t)
             [] t.T = "Match" -> EncMatch(t) [] t.T = "MatchField" -> EncOxm(t) [] t.T = "Bucket" -> EncBucket(t)
